@@ -37,6 +37,7 @@ Why(r) ==
   ELSE IF r.kind = "num" /\ Len(o.nums) # Len(cls) THEN "numcount"
   ELSE IF r.kind = "num" /\ \E i \in DOMAIN cls : ~NumOk(cls[i], r.numerals[i], o.nums[i], o.want[i])
        THEN LET i == CHOOSE j \in DOMAIN cls : ~NumOk(cls[j], r.numerals[j], o.nums[j], o.want[j]) IN cls[i]
+  ELSE IF r.kind = "num" /\ Len(cls) = 1 /\ r.text = r.numerals[1] /\ cls[1] = "int" /\ o.printed # r.text THEN "printed"
   ELSE IF p.dom /\ o.value # p.v THEN "value"
   ELSE IF p.dom /\ LET q == JsonParse(o.printed) IN ~q.ok \/ q.v # p.v THEN "printed"
   ELSE IF ~o.reparse_equal THEN "reparse"
